@@ -2,16 +2,37 @@
 PID = "C11"
 TYPES = ["NULL", "PRIVATE", "TXT", "SRV", "MX", "CNAME", "AAAA", "A"]
 RULE = ("a family of path behaviours: letter case of query names {kept, lower-cased, upper-cased, alternating} x 8-bit octets {kept, high bit "
-        "stripped, query dropped} x answered record types {all, each single type, random subsets} x answer size limit {none, 512..8192}; the "
-        "real client Handshake against the real server through a communicator implementing the path on packed bytes (a dropped message is a "
-        "time-out; at most 1500 exchanges); after a successful negotiation ten transfers per direction (1 byte .. several fragments, "
-        "escape-heavy and 8-bit content) through the same path; distinct_nontrivial = distinct non-transparent paths")
-EXPLANATION = ("Props/C11.v: the fragment-size search ends for every probe oracle and reports only sizes that were probed successfully "
-               "(the shape before the repair is proved non-terminating); the codec ladder only commits to a codec whose whole alphabet the path "
-               "leaves alone. The handshake as a whole is exercised, not modelled end to end: success must be followed by correct transfers, "
-               "anything else must be a reported failure within the exchange budget.")
-TRUSTED = ["the handshake's other stages (query-type detection, EDNS0, lazy mode, option switching) are exercised through the real code only",
-           "real resolvers and timing are not modelled; a dropped message is an immediate time-out in the run"]
+        "stripped, query dropped} x answered record types {all, each single type, random subsets} x answer size limit {none, 300..8192} "
+        "enforced either by dropping a larger answer or by cutting trailing answer records until it fits (negative limit: a truncating "
+        "forwarder); the real client Handshake against the real server through a communicator implementing the path on packed messages (a "
+        "dropped message is a time-out; at most 1500 exchanges); the model (Nego/Handshake.v, the same negotiation over the server model of "
+        "C12) predicts the whole outcome for every path but the alternating-case one: success or the stage that fails, record type, both "
+        "codecs, EDNS0, lazy mode, both fragment sizes, what the server holds for the session, and the exact number of exchanges; after a "
+        "successful negotiation transfers in each direction (1 byte .. several fragments, lengths around the limit, escape-heavy and 8-bit "
+        "content) through the same path, and for some cases data both ways in the same exchanges; distinct_nontrivial = distinct "
+        "non-transparent paths")
+EXPLANATION = ("Props/C11.v: the negotiation as a whole is a Coq function of the path (record type detection with its three rounds, version "
+               "exchange, EDNS0 probe, upstream ladder over the real test patterns, both codec switches with their fall-backs, downstream ladder "
+               "with the DownloadCodecCheck round trip, lazy mode, the fragment-size search and the switch), every probe pushed through the "
+               "request, name, server, wrap and response models of C09/C10/C12 and through the path. Proved for EVERY path of the family (every "
+               "size limit, dropping or cutting): it ends, within 141 exchanges; the outcome is success or a named failing stage; when no record "
+               "type is answered, no probe passes or the version exchange fails it reports failure; on success the settled record type is "
+               "answered, its probe passed and no type before it in the priority order has a passing probe; the path leaves alone the whole "
+               "alphabet of the settled upstream codec and every other character of a query name; the settled downstream codec passed the check "
+               "pattern round trip through the settled record type on this path; the server holds the same codecs and lazy mode as the client "
+               "when the fragment-size search starts; the probe for the settled downstream size passed on this path (never below 768 octets; on "
+               "a dropping path its whole packed answer was within the limit); every data packet up to the upstream fragment size is decoded by "
+               "the server to the same packet; every packet response whose packed answer the path lets through is decoded by the client to the "
+               "same response. The stages before the search are explored over all limits at once by a reflective procedure whose soundness is "
+               "proved (the path compares its limit with finitely many answer sizes). Refuted with a computed witness and reproduced on the real "
+               "code (known finding): the size condition does not follow from the negotiated fragment sizes when a query that carries a full "
+               "upstream fragment is answered with a full downstream fragment (the probe is sent with a short query name, an answer repeats the "
+               "query name twice): over a dropping path that exchange fails on all five tries, over a cutting path the client accepts the cut "
+               "packet as a shorter one.")
+TRUSTED = ["the path acts on query-name octets and on the list of answer records exactly as harness/cmd/verifharness/c11.go does on packed messages; "
+           "a dropped message is an immediate time-out; the alternating-case policy is run but not predicted (it depends on the random cache characters)",
+           "the model has no clock: validateAndGetUser's refresh of lastConnection is the identity, so the fragment-size search runs over one server state",
+           "real resolvers and timing are not modelled"]
 SHARDS = 4      # harness processes side by side (cases are independent, all in memory)
 RUN_TIMEOUT = 3000
 
@@ -19,13 +40,14 @@ RUN_TIMEOUT = 3000
 def mk(cp, bp, types, limit, seed, src):
     line = "c11 %s %s %s %d %d" % (cp, bp, types, limit, seed)
     transparent = cp == "keep" and bp == "keep" and types == "all" and limit == 0
-    return {"line": line, "key": None if transparent else line, "tags": {"case": cp, "bits": bp, "types": types, "limit": limit, "src": src}}
+    return {"line": line, "key": None if transparent else "c11 %s %s %s %d" % (cp, bp, types, limit),
+            "tags": {"case": cp, "bits": bp, "types": types, "limit": limit, "seed": seed, "src": src}}
 
 
 def cases(tier, rng):
     thorough = tier == "thorough"
     cs = [mk("keep", "keep", "all", 0, 1, "transparent")]
-    # transfers of every length up to one upstream fragment after the handshake (seed >= 1000 asks the harness for the sweep):
+    # transfers of every length up to one upstream fragment after the handshake (seed 1000..1999 asks the harness for the sweep):
     # a transparent path, one that lower-cases names (Base32 upstream), one that strips the 8th bit, a CNAME-only and an MX-only path
     for cp, bp, ty in ([("keep", "keep", "all"), ("lower", "keep", "all"), ("keep", "strip", "all"), ("keep", "keep", "CNAME"), ("keep", "keep", "MX")]
                        if thorough else [("keep", "keep", "all"), ("lower", "keep", "all"), ("keep", "keep", "CNAME")]):
@@ -35,53 +57,113 @@ def cases(tier, rng):
             cs.append(mk(cp, bp, "all", 0, rng.below(100), "name-policy"))
     for t in TYPES:
         cs.append(mk("keep", "keep", t, 0, rng.below(100), "single-type"))
-    for lim in ([512, 768, 1024, 1500, 2048, 4096, 8192] if thorough else [512, 1500, 4096]):
+    for lim in ([300, 512, 768, 800, 1024, 1500, 2048, 4096, 8192, 9000] if thorough else [512, 800, 1500, 4096]):
         cs.append(mk("keep", "keep", "all", lim, rng.below(100), "size-limit"))
+    # a truncating forwarder: answers of several records lose their tail
+    trunc = [("CNAME", 1500), ("SRV", 1024), ("MX", 4096), ("A", 512), ("all", 1500), ("TXT", 2048), ("CNAME", 512), ("SRV,MX,CNAME", 700)]
+    if thorough:
+        trunc += [(t, l) for t in ("CNAME", "SRV", "MX", "A", "TXT", "all") for l in (512, 1024, 1232, 2048, 4096)]
+    for ty, lim in trunc:
+        cs.append(mk(rng.choice(["keep", "lower"]) if thorough else "keep", "keep", ty, -lim, rng.below(100), "truncating-limit"))
+    # the same limits by dropping, for the types whose answers have several records
+    for ty, lim in ([("CNAME", 1500), ("TXT", 1200), ("MX", 900)] + ([("SRV", 2048), ("CNAME", 600), ("PRIVATE", 1000)] if thorough else [])):
+        cs.append(mk("keep", "keep", ty, lim, rng.below(100), "size-limit-type"))
+    # data both ways in the same exchanges after the handshake (seed >= 2000)
+    for cp, bp, ty, lim in ([("keep", "keep", "all", 0), ("lower", "keep", "CNAME", 0), ("keep", "keep", "all", 1500), ("keep", "keep", "CNAME", -1500)]
+                            + ([("keep", "strip", "TXT", 0), ("keep", "keep", "MX", 4096), ("keep", "keep", "all", -4096)] if thorough else [])):
+        cs.append(mk(cp, bp, ty, lim, 2000 + rng.below(100), "both-ways"))
     for _ in range(60 if thorough else 8):
         k = rng.range(1, 4)
         ts = ",".join(sorted(set(rng.choice(TYPES) for _ in range(k))))
-        cs.append(mk(rng.choice(["keep", "lower", "upper", "alt"]), rng.choice(["keep", "strip", "drop"]), ts,
-                     rng.choice([0, 0, 600, 1200, 1500, 3000, 8192]), rng.below(100), "combination"))
+        lim = rng.choice([0, 0, 600, 1200, 1500, 3000, 8192])
+        if rng.below(3) == 0:
+            lim = -lim
+        cs.append(mk(rng.choice(["keep", "lower", "upper", "alt"]), rng.choice(["keep", "strip", "drop"]), ts, lim, rng.below(100), "combination"))
     return cs
+
+
+def fields(p):
+    """key/value pairs of an observation line (after `hs <status>`, up to the transfer verdict)."""
+    if "xfer" in p:
+        p = p[:p.index("xfer")]
+    return dict(zip(p[2::2], p[3::2]))
 
 
 def oracle(case, impl):
     t = case["tags"]
+    if "limit" not in t:      # a corpus line, or the replay of a stored case line
+        w = case["line"].split()
+        t = {"case": w[1], "bits": w[2], "types": w[3], "limit": int(w[4]), "seed": int(w[5])}
+    lim = abs(t["limit"])
     p = impl.split()
     if not p or p[0] in ("panic", "died", "timeout", "harness-error"):
         return [("crash", "negotiation scenario crashed: %s -> %s" % (case["line"], impl[:150]))]
     out = []
+    transparent = t["case"] == "keep" and t["bits"] == "keep" and t["types"] == "all" and t["limit"] == 0
     if p[:2] == ["hs", "nonterm"]:
         out.append(("handshake-does-not-terminate;limit=%s" % (t["limit"] or "none"), "the handshake was still probing after %s exchanges on path %s" % (p[3], case["line"])))
         return out
     if p[:2] == ["hs", "ok"]:
-        f = dict(zip(p[2::2], p[3::2]))
+        f = fields(p)
         if "xfer" in p and p[p.index("xfer") + 1] != "ok":
             what = p[p.index("xfer") + 2]
-            out.append(("negotiated-parameters-do-not-work;qt=%s;down=%s" % (f.get("qt"), f.get("down")),
-                        "handshake reported success (%s) but a %s transfer over the same path was wrong" % (" ".join(p[2:16]), what)))
-        if t["limit"] and int(f.get("frag", 0)) + 2 > t["limit"]:
-            out.append(("fragment-above-limit", "negotiated fragment size %s exceeds what the path carries (%d)" % (f.get("frag"), t["limit"])))
-        if t["case"] == "keep" and t["bits"] == "keep" and t["types"] == "all" and t["limit"] == 0 and f.get("qt") != "10":
+            if lim and (what.startswith("both") or int(f.get("oversized", 0)) > 0):
+                out.append(("full-fragments-both-ways-exceed-the-limit",
+                            "handshake reported success (%s) on a path with answer size limit %d, but when a query carrying a full upstream fragment "
+                            "is answered with a full downstream fragment the transfer fails (%s; %s such answers exceeded the limit)" %
+                            (" ".join(p[2:16]), lim, what, f.get("oversized", "?"))))
+            else:
+                out.append(("negotiated-parameters-do-not-work;qt=%s;down=%s" % (f.get("qt"), f.get("down")),
+                            "handshake reported success (%s) but a %s transfer over the same path was wrong" % (" ".join(p[2:16]), what)))
+        if lim and int(f.get("frag", 0)) + 2 > lim:
+            out.append(("fragment-above-limit", "negotiated fragment size %s exceeds what the path carries (%d)" % (f.get("frag"), lim)))
+        if lim and "srvfrag" in f and int(f["srvfrag"]) + 2 > lim:
+            out.append(("server-fragment-above-limit", "the server cuts downstream data into fragments of %s octets, more than the path carries (%d)" % (f["srvfrag"], lim)))
+        if "srvup" in f and (f["srvup"] != f.get("up") or f["srvdown"] != f.get("down")):
+            out.append(("client-and-server-disagree", "after a successful handshake the client uses codecs up=%s down=%s, the server up=%s down=%s" %
+                        (f.get("up"), f.get("down"), f["srvup"], f["srvdown"])))
+        if transparent and f.get("qt") != "10":
             out.append(("transparent-path-suboptimal", "transparent path but record type %s was chosen" % f.get("qt")))
-    elif p[:2] == ["hs", "fail"] and t["case"] == "keep" and t["bits"] == "keep" and t["types"] == "all" and t["limit"] == 0:
+    elif p[:2] == ["hs", "fail"] and transparent:
         out.append(("transparent-path-fails", "the handshake fails over a transparent path"))
     if "srvpanics" in p and p[p.index("srvpanics") + 1] != "0":
         out.append(("server-panic-during-negotiation", "the server's handler panicked %s times during this negotiation" % p[p.index("srvpanics") + 1]))
     return out
 
 
+# what the model predicts of a successful negotiation, in the order compared
+SETTLED = ["qt", "up", "down", "edns", "lazy", "upmtu", "frag", "srvup", "srvdown", "srvfrag", "srvlazy", "hsex"]
+PROJECTION = {"qt": "record-type", "up": "upstream-codec", "down": "downstream-codec", "edns": "edns0", "lazy": "lazy-mode",
+              "upmtu": "upstream-fragment", "frag": "downstream-fragment", "srvup": "server-upstream-codec", "srvdown": "server-downstream-codec",
+              "srvfrag": "server-fragment", "srvlazy": "server-lazy-mode", "hsex": "exchanges"}
+
+
 def agree(case, impl, model):
     p, m = impl.split(), model.split()
-    if len(m) < 4:
+    if m[:1] == ["notpredicted"]:
+        return None
+    if len(m) < 2 or m[0] != "hs":
         return "negotiation"
-    if p[:2] == ["hs", "nonterm"] and m[1] == "1":
-        return "termination"
-    if p[:2] == ["hs", "ok"] and m[3] != "0" and case["tags"]["types"] == "all" and case["tags"]["limit"] == 0:
-        f = dict(zip(p[2::2], p[3::2]))
-        if f.get("up") != m[3]:
-            return "upstream-codec"
-    return None
+    if len(p) < 2 or p[0] != "hs":
+        return "negotiation"
+    if p[1] == "nonterm" or m[1] == "nonterm":
+        return None if p[1] == m[1] else "termination"
+    if p[1] != m[1]:
+        return "outcome"
+    fi, fm = fields(p), fields(m)
+    if p[1] == "ok":
+        for k in SETTLED:
+            if fi.get(k) != fm.get(k):
+                return PROJECTION[k]
+        return None
+    if p[1] == "fail":
+        why = {"switch": "other"}.get(fm.get("why"), fm.get("why"))
+        if fi.get("why") != why:
+            return "failing-stage"
+        if fi.get("hsex") != fm.get("hsex"):
+            return "exchanges"
+        return None
+    return "outcome"
 
 
 def distribution(cs):
@@ -92,11 +174,18 @@ def distribution(cs):
 
 
 META = {
-    "level_text": "Partial: Coq theorems for the two algorithms of the negotiation that are socketace's own decision logic - the fragment-size "
-                  "search (terminates for every probe behaviour, reports only sizes probed successfully, respects a size limit; the shape before "
-                  "the repair is proved non-terminating) and the upstream codec ladder (commits only to a codec whose alphabet the path leaves "
-                  "alone) - and the whole real handshake run over a family of path behaviours followed by transfers through the same path.",
-    "level_note": "The remaining stages of the handshake are exercised through the real code, not modelled. A dropped message is an immediate "
-                  "time-out in the run; real resolvers are out of scope.",
-    "technique": "Coq proofs over the search and ladder models + path-family scenarios through the real handshake",
+    "level_text": "Full for the modelled path family: the whole client-side negotiation is a Coq function of the path (query-name case and 8-bit "
+                  "policies, answered record types, answer size limit by dropping or by cutting records), composed of the request, name, server, "
+                  "wrap and response models of C09/C10/C12; termination (at most 141 exchanges), reported failure, and for every success that the "
+                  "settled record type, codecs and fragment sizes passed their probes on that very path, that client and server agree on the codecs, "
+                  "and that data packets within the upstream fragment size and packet responses the path lets through are decoded to the same "
+                  "packet are theorems over every path of the family (every limit); the model's prediction of the whole outcome (every settled "
+                  "parameter, what the server holds, the failing stage, the exact number of exchanges) is compared with the real handshake against "
+                  "the real server on every case, followed by real transfers over the same path.",
+    "level_note": "Relative to the path family of the harness (a dropped message is an immediate time-out; answers are dropped or cut record-wise, "
+                  "their octets are not altered; the alternating-case policy is exercised but not predicted; one tunnel domain). That the packed "
+                  "answer of a downstream fragment stays within the limit is a stated side condition of the downstream theorem: it holds for "
+                  "polls by the probe that passed (exercised by the transfers), and is refuted for answers to queries that carry a full upstream "
+                  "fragment (known finding, reproduced on the real code).",
+    "technique": "Coq proofs over the negotiation model (reflective exploration of the size-limit classes) + path-family scenarios through the real handshake",
 }
